@@ -82,7 +82,9 @@ def smResumeFields : List Field := [.attr (s "h") (.nat 32) false, .attr (s "pre
 def SmResume := nonza (declHead "resume" nsSm) smResumeFields
 def SmResumed := nonza (declHead "resumed" nsSm) smResumeFields
 
-def smFailedFields : List Field := [.enumChild nsStanza true false stanzaConditions false]
+/-- `h` (stanzas handled on the session that could not be resumed) since /repo 29f1a4c: `toUInt(&ok)`, unset when absent or
+unparsable, written when set -/
+def smFailedFields : List Field := [.enumChild nsStanza true false stanzaConditions false, .attr (s "h") (.optNat 32) true]
 def SmFailed := nonza (declHead "failed" nsSm) smFailedFields
 
 def SmAck := nonza (declHead "a" nsSm) [.attr (s "h") (.nat 32) false]
@@ -420,10 +422,11 @@ def RosterIq := iqPayload (declHead "query" nsRoster) [
 null form: `wrapGuard` on `type`.  How a `<field/>` reads and writes its `<value/>` / `<option/>` children DEPENDS on the
 field type (`formValue`): boolean = first value ∈ {"1","true"}, always written as 1/0; `*-multi` = all values in order;
 the others = the first value, a `QString` that is null when there is no `<value/>`; options only for `list-*`.
-TODAY `toXml` writes a single value only when it is non-EMPTY, so an empty non-null value (`<value/>`) comes back null:
-`dataFormFieldsCode` models that (not well-formed; recorded findings C01:field-mismatch:DataForm:form.3.*.0.1 and the
-`C01:own-form-roundtrip:QXmppPubSub…` / `…QXmppMix…Item` keys of the classes built on data forms, where the null value
-makes the whole field disappear); `dataFormFieldsFixed` is the class after fixes/C01-dataform-empty-value.diff.
+Since /repo 06b3045 `toXml` writes a single value whenever it is non-null (`<value/>` for the empty string); before
+that it wrote it only when non-EMPTY, so an empty non-null value came back null (fixed findings
+C01:field-mismatch:DataForm:form.3.*.0.1 and relatives, and the `…:x/field:lost` keys of the classes built on data forms,
+for which a null value means "field absent").  `dataFormFieldsWith true` is that old behaviour (not well-formed), kept
+to state what the defect was.
 Fields with `<media/>` sources (QUrl / QMimeType) are OUTSIDE the model.  Modelled as the `<x/>` child of a holder. -/
 
 def nsData := s "jabber:x:data"
@@ -438,19 +441,20 @@ def dataFormFieldsWith (dropsEmpty : Bool) : List Field := [
       (anyHead "option" nsData) [.attr (s "label") .str true, .textChild (anyHead "value" nsData) .str false] [5, 6],
     .attr (s "label") .str true, .attr (s "var") .str true,
     .textChild (anyHead "description" nsData) .str true, .flagChild (anyHead "required" nsData)] false]
+/-- the class before /repo 06b3045 (not well-formed) -/
 def dataFormFieldsCode := dataFormFieldsWith true
 def dataFormFieldsFixed := dataFormFieldsWith false
-/-- what the classes below embed: today's code -/
-def dataFormFields := dataFormFieldsCode
+/-- what the classes below embed: the code as it is now -/
+def dataFormFields := dataFormFieldsFixed
 /-- the form as a child: `exact` = looked up by tag and namespace, else by tag alone -/
 def dataFormChild (exact : Bool) : Field :=
   .child { tag := s "x", ns := nsData, decl := true, anyNs := !exact } dataFormFields (.wrapGuard [true, false, false, false])
 def DataForm : Schema :=
   { head := { tag := s "holder", ns := [], decl := false, anyNs := false }, check := .unchecked, inh := [],
     fields := [dataFormChild true] }
-/-- the repaired class -/
-def DataFormFixed : Schema :=
-  { DataForm with fields := [.child { tag := s "x", ns := nsData, decl := true, anyNs := false } dataFormFieldsFixed
+/-- the class before /repo 06b3045 -/
+def DataFormOld : Schema :=
+  { DataForm with fields := [.child { tag := s "x", ns := nsData, decl := true, anyNs := false } dataFormFieldsCode
       (.wrapGuard [true, false, false, false])] }
 
 /-- `QXmppMucOwnerIq` payload (src/base/QXmppMucIq.cpp:265-282): the form is `query.firstChildElement("x")` -/
